@@ -157,11 +157,12 @@ func runProperty(spec *PropSpec, tier string, seed, workers int) int {
 	var xcWG sync.WaitGroup
 	var xcMu sync.Mutex
 
-	view, err := buildView(false, pkgs)
-	var world *World
-	if err == nil {
+	view, world, dropped, err := loadIsolated(pkgs)
+	if view != nil {
 		rewritten = view.Rewritten
-		world, err = loadWorld(view, pkgs)
+	}
+	for _, f := range dropped {
+		say("NOTE property=%s: harness file %s does not compile against the current tree and is left out", spec.ID, f)
 	}
 	if err != nil {
 		if _, isBuild := err.(*buildError); isBuild {
